@@ -418,21 +418,23 @@ def c18(seed, n, inproc=None):
     return fails, kdiffs, dict(stats)
 
 # ---------------------------------------------------------------- C13
-def c13(seed, n, pool=None):
+def c13(seed, n, pool=None, must=None, key='c13', kinds=('struct', 'enum', 'union'), use_grid=True):
     """an input that one of the syntactic classifiers of Spec/Invalid.v (written from the property text,
     proved to imply Err on the model) marks invalid, and that the REAL macro accepts, is a failing input"""
     pool = pool or list(gen.GENS.keys())
     cases = []
     for i in range(n):
-        c = gen.gen_case('c13-%d-%d' % (seed, i), 0, pool, want_fault=(i % 10 != 0))
-        cases.append(('c13-%d' % i, c))
-    grid = c13_grid()
-    if n < 20000:
+        c = gen.gen_case('%s-%d-%d' % (key, seed, i), 0, pool, want_fault=(i % 10 != 0), must=must, kinds=kinds)
+        cases.append(('%s-%d' % (key, i), c))
+    grid = c13_grid() if use_grid else []
+    if must:
+        grid = [g for g in grid if any(re.search(r'\b%s\b' % t, g.attrs[0].args) for t in must)]
+    elif n < 20000:
         # quick tier: a seeded third of the grid
         rr = random.Random('c13grid-%d' % seed)
         grid = [g for g in grid if rr.random() < 0.34]
     for j, c in enumerate(grid):
-        cases.append(('c13g-%d' % j, c))
+        cases.append(('%sg-%d' % (key, j), c))
     real = k1.run_real([(i, c.rust()) for i, c in cases])
     cls = k1.run_classes([(i, c.sx()) for i, c in cases])
     fails = []
@@ -449,9 +451,11 @@ def c13(seed, n, pool=None):
             for k in allc:
                 stats['class:' + k] += 1
         if r[0] == 'OK' and modgap:
-            fails.append(dict(key='c13:' + k1lib_hash(c.rust()), what='the request contains %s and is accepted instead of refused' % ', '.join(modgap), input=c.rust(), classes=modgap))
+            fails.append(dict(key=key + ':' + k1lib_hash(c.rust()), what='the request contains %s and is accepted instead of refused' % ', '.join(modgap), input=c.rust(), classes=modgap))
         elif r[0] == 'OK' and allc and gap:
             stats['known_gap_accepted'] += 1
+            if key != 'c13':
+                continue             # the recorded gap belongs to C13
             fails.append(dict(key='c13:copy-attrs-unchecked-with-clone', what='known gap: Copy(...) attributes below the type level are not validated when Clone is educed', input=c.rust(), classes=allc))
     return fails, [], dict(stats)
 
@@ -544,6 +548,52 @@ def c13_grid():
     for inp in cases:
         inp.notes = {}; inp.traits = []
     return cases
+
+def rejections(seed, n, pool=None, must=None, key='rej'):
+    """the rejection side of a behavioural property: a request in which a field / variant designation that the
+    generated code cannot honour (two markers, a parameter where it has no effect, a method where the body is a
+    bitwise copy, ...) must be refused, not accepted with the designation dropped.  Same classifiers as C13,
+    inputs drawn around the property's own traits."""
+    return c13(seed, n, pool=pool, must=must, key=key)
+
+# ---------------------------------------------------------------- C04 (discriminants the macro cannot evaluate)
+def c04(seed, n):
+    """an explicit discriminant that is not an integer literal (optionally negated) cannot be evaluated by the macro:
+    it must be refused - accepted, the variant order would follow some other value than the declared one"""
+    import dinput as D
+    cases = []
+    texts = sorted(set(t for k, t in gen.DISCR_BAD)) + ['!-1', '-!1', '!!1', '+1', '1u8 as i64', '0 - 1', '1 << 3', '(-1)', '{ 1 }', 'u8::MAX as isize', 'i64::MIN']
+    k = 0
+    for tset in ('PartialOrd', 'Ord', 'PartialOrd, Ord', 'Ord, PartialOrd'):
+        full = 'PartialEq, Eq, ' + tset if 'Ord' in tset.split(', ') else 'PartialEq, ' + tset
+        for text in texts:
+            for pos in range(3):
+                for shape in ('unit', 'mixed'):
+                    for rp in ([], [D.Attr('repr', 'list', 'i64')]):
+                        vs = []
+                        for j, nm in enumerate(['A', 'B', 'C']):
+                            kind, fs = ('unit', []) if shape == 'unit' or j != 1 else ('unnamed', [D.Field(None, 'u8')])
+                            vs.append(D.Variant(nm, kind, fields=fs, discr=text if j == pos else None))
+                        if shape == 'mixed' and not rp:
+                            continue
+                        inp = D.Input('enum', 'E', attrs=rp + [D.educe(full)], variants=vs)
+                        cases.append(('c04-%d' % k, inp)); k += 1
+    real = k1.run_real([(i, c.rust()) for i, c in cases])
+    model = k1.run_model([(i, c.sx()) for i, c in cases])
+    fails, kdiffs = [], []
+    stats = collections.Counter(cases=len(cases))
+    view = k1lib.get_view('items:PartialOrd,Ord')
+    for i, c in cases:
+        r = outcome(real[i]); m = k1lib.classify(model[i], 'model')
+        stats['real_' + r[0]] += 1
+        if m[0] == 'ERR' and r[0] == 'OK':
+            fails.append(dict(key='c04:' + k1lib_hash(c.rust()), input=c.rust(),
+                              what='a discriminant expression the macro cannot evaluate is accepted: the generated order follows some other value than the declared discriminant'))
+        else:
+            v, d = k1lib.compare_view(real[i], model[i], view)
+            if v == 'diff':
+                kdiffs.append(dict(stream='c04-grid', case=i, input=c.rust(), detail=d))
+    return fails, kdiffs, dict(stats)
 
 # ---------------------------------------------------------------- C07 (rejection side)
 def c07(seed, n, pool=None):
